@@ -108,7 +108,7 @@ func runBubble(tp *core.Tape, e *core.Env, sc *WScenario, which cyc.Which, res *
 	for _, p := range w.CL.AllPods() {
 		if a := byPod[p.Name]; a != nil {
 			if !p.FileMode {
-				_ = p.SC.PushConfig(sc.ConfigText(0))
+				_ = p.SC.PushConfig(sc.ConfigText(0, 0))
 			}
 			if err := p.SC.PostTargets(&shard.UpdateTargetsRequest{Targets: a}); err != nil {
 				e.Undecided("initial placement rejected: %v", err)
@@ -219,7 +219,7 @@ func runBubble(tp *core.Tape, e *core.Env, sc *WScenario, which cyc.Which, res *
 				quietStart = doneCycles
 				// end every fault window, roll files out
 				for _, p := range w.CL.AllPods() {
-					p.UnreachableUntil, p.NotReadyUntil, p.ReloadFailUntil = time.Time{}, time.Time{}, time.Time{}
+					p.UnreachableUntil, p.NotReadyUntil, p.ReloadFailUntil, p.StalledUntil = time.Time{}, time.Time{}, time.Time{}, time.Time{}
 				}
 				w.failGetUntil = map[string]time.Time{}
 				w.loseNextPost = map[string]string{}
@@ -295,8 +295,8 @@ func runBubble(tp *core.Tape, e *core.Env, sc *WScenario, which cyc.Which, res *
 
 func (w *World) rolloutFiles() {
 	for _, p := range w.CL.AllPods() {
-		if p.FileMode && p.Running && p.FileText != w.SC.ConfigText(w.cfgVer) {
-			p.FileText = w.SC.ConfigText(w.cfgVer)
+		if p.FileMode && p.Running && p.FileText != w.SC.ConfigText(w.cfgSem, w.cfgCos) {
+			p.FileText = w.SC.ConfigText(w.cfgSem, w.cfgCos)
 			_ = writeFile(p, p.FileText)
 			if err := p.SC.ReloadFile(); err != nil {
 				w.E.Undecided("file rollout rejected: %v", err)
@@ -340,14 +340,22 @@ func (w *World) applyEvent(ev WEvent) {
 				p.Prom.HeadGC()
 			}
 		}
-	case "config_edit":
-		w.cfgVer++
-		if err := w.Cfg.ReloadFromRaw([]byte(sc.ConfigText(w.cfgVer))); err != nil {
+	case "config_edit", "config_cosmetic":
+		if ev.Kind == "config_edit" {
+			w.cfgSem++
+			w.E.Probe("config_edited")
+		} else {
+			w.cfgCos++
+			w.E.Probe("config_cosmetic_edit")
+		}
+		if err := w.Cfg.ReloadFromRaw([]byte(sc.ConfigText(w.cfgSem, w.cfgCos))); err != nil {
 			w.E.Undecided("coordinator rejects the edited configuration: %v", err)
 		}
 		w.SendSD()
-		w.logf("event: coordinator configuration edited (version %d)", w.cfgVer)
-		w.E.Probe("config_edited")
+		w.logf("event: coordinator configuration now revision %d.%d (%s)", w.cfgSem, w.cfgCos, ev.Kind)
+	case "rollout":
+		w.rolloutFiles()
+		w.E.Probe("files_rolled_out")
 	}
 }
 
@@ -427,6 +435,9 @@ func (w *World) maybeFault(tr *cyc.CycleTrace) bool {
 	case "prom_reload_fails":
 		p.ReloadFailUntil = now.Add(dur)
 		w.E.Fault("prom_reload_fails")
+	case "prom_stalled":
+		p.StalledUntil = now.Add(dur + 20*time.Second)
+		w.E.Fault("prom_stalled")
 	case "config_out_of_sync":
 		// the coordinator's configuration changes; file-mode sidecars keep the old file until the rollout
 		w.applyEvent(WEvent{Kind: "config_edit"})
